@@ -1,4 +1,4 @@
-import SctpVerif.Proofs.NetSys.IData
+import SctpVerif.Proofs.NetSys.Data
 /-!
 # C01 — the composition: sender half + adversarial network + receiver half (`NetSys`)
 
@@ -23,8 +23,17 @@ on every stream, what the receiving application has read is a PREFIX of what the
 Hypotheses (each decidable on the run, each shown satisfiable by the `example`s at the end):
 * `Reliable ops`: every `openS` is ordered with `relType = 0`, no `unreg` (the SSN / MID counters of a stream object are
   never restarted; no FORWARD-TSN is ever due, and NetSys delivers none);
-* `chunksWritten P ops < 2^31`: fewer than 2^31 DATA chunks are created in all (each gets at most one TSN —
+* `chunksWritten P ops < 2^31` (I-DATA; `2^30` for DATA, see there): fewer than 2^31 chunks are created in all (each gets at most one TSN —
   `SenderTsn.run_tsn`, `moved_le_written`), so that a 32-bit TSN names one chunk;
+* `SelContig P ops` (DATA only): the order in which the pending queue hands out chunks — the `sel` ORACLE of the Sender model;
+  it is the order of the TSNs — keeps the fragments of a message together and serves each stream first-in-first-out.
+  Stated on the run's `moved` list in the terms of `Props/C17.lean`, which proves exactly this of the real pending queue
+  (model `PendQ`, tied by `TestVerifPendQ`): `C17_contiguous` (once a non-final fragment is popped, the next pop is the
+  next fragment of that message) and `C17_fragment_order` (the pops of a stream are a prefix of its pushes). It is needed
+  because the receiver theorem describes the peer by a universe in which the fragments of a message have consecutive TSNs
+  and the messages of a stream ascending ones; an arbitrary oracle (message 1 of a stream sent before message 0, fragments
+  of two messages mixed) produces chunk sets outside that universe. (For such selections the theorem is silent: delivery
+  would stall — `isComplete` never sees consecutive TSNs — whether safety could still fail is not decided here.)
 * `WinOk P si W`: deviation D15 — at every step the messages written on the stream are at most `W` ahead of the messages
   read on it (`W = 2^31` for the 32-bit MID, `2^15` for the 16-bit SSN). It implies the `hwin` hypothesis of the receiver
   theorem (inside the proof: a chunk on the wire at some moment belongs to a message written before that moment).
@@ -41,6 +50,19 @@ theorem C01_netsys_prefix_idata (P : Params) (ops : List Op) (si : BitVec 16)
     (htsn : chunksWritten P ops < 2^31) (hwin : WinOk P si (2^31) (init P) ops = true) :
     readsOn P si (init P) ops <+: writesOn P si (init P) ops :=
   netsys_prefix_idata P ops si hil hrel htsn hwin
+
+/-- ✱ **NetSys, DATA (no interleaving).** For every run of NetSys from the initial state whose selection oracle is
+message-contiguous and per-stream FIFO (`SelContig`, what `Props/C17.lean` proves of the real pending queue), with any
+SACKs, any losses / duplications / reorderings / bundlings: on every stream `si` the `(PPI, bytes)` read by the receiving
+application are a prefix of the `(PPI, bytes)` of the accepted writes on `si`.
+The bound is `2^30` chunks written (not `2^31`): fragments that were written but never got a TSN are given virtual TSN
+offsets ABOVE every TSN in use in the receiver theorem's universe, which needs `moved + written < 2^31`
+(`moved ≤ written`: `C01_wire_tsn_stable`). Tightening it to `2^31` needs one more counting lemma and is not done. -/
+theorem C01_netsys_prefix (P : Params) (ops : List Op) (si : BitVec 16)
+    (hil : P.cfg.useInterleaving = false) (hrel : Reliable ops = true) (hsel : SelContig P ops = true)
+    (htsn : chunksWritten P ops < 2^30) (hwin : WinOk P si (2^15) (init P) ops = true) :
+    readsOn P si (init P) ops <+: writesOn P si (init P) ops :=
+  netsys_prefix_data P ops si hil hrel hsel htsn hwin
 
 /-- **One fragment, one TSN** (sender half, all runs, any configuration, any SACKs / oracles). Along every run from
 `init`: the `j`-th chunk moved from the pending queue to in flight carries TSN `tsn + j`; every chunk ANY gather puts on
@@ -104,5 +126,35 @@ example : readsOn PI 1 (init PI) opsI = [(51, [1, 2, 3, 4, 5]), (52, [9, 8, 7])]
 set_option maxRecDepth 1000000 in
 example : readsOn PI 1 (init PI) opsI <+: writesOn PI 1 (init PI) opsI :=
   C01_netsys_prefix_idata PI opsI 1 rfl (by decide) (by decide) (by decide)
+
+
+-- DATA: the same workload with a message-contiguous, per-stream FIFO selection (the pending queue's message policy)
+private def PD : Params := { cfg := { mtu := 1200, maxPayload := 2 }, tsn := 4294967294#32, pay := bytes }
+private def opsD : List Op :=
+  [.snd (.openS 1 false 0 0 0), .snd (.openS 2 false 0 0 0), .write 1 51, .write 2 61, .write 1 52,
+   .snd (.gather Sender.freeOracle [0, 0, 0, 0, 0, 0]),
+   .deliver [(5, false), (4, true)], .rcv (.read (1, 0) 100),
+   .deliver [(2, false), (1, false), (1, false)], .deliver [(3, false)], .rcv (.read (2, 0) 100),
+   .snd (.sack 77 65536 [] []), .snd .t3, .snd (.gather Sender.freeOracle []),
+   .deliver [(0, false), (9, false), (100, false)], .rcv (.read (1, 0) 1), .rcv (.read (1, 0) 100), .rcv (.read (1, 0) 100),
+   .rcv (.read (1, 0) 100)]
+
+-- test: TSNs 2^32−2, 2^32−1, 0 for message 0 (SSN 0), 1 for stream 2, 2, 3 for message 2 (SSN 1)
+set_option maxRecDepth 1000000 in
+example : ((run PD (init PD) opsD).wire.take 6).map (fun c => (c.tsn, c.si, c.msg, c.ssn, c.fsn, c.len)) =
+    [(4294967294#32, 1#16, 0, 0#16, 0#32, 2), (4294967295#32, 1#16, 0, 0#16, 1#32, 2), (0#32, 1#16, 0, 0#16, 2#32, 1),
+     (1#32, 2#16, 1, 0#16, 0#32, 1), (2#32, 1#16, 2, 1#16, 0#32, 2), (3#32, 1#16, 2, 1#16, 1#32, 1)] := by decide
+
+set_option maxRecDepth 1000000 in
+example : readsOn PD 1 (init PD) opsD = [(51, [1, 2, 3, 4, 5]), (52, [9, 8, 7])] ∧ readsOn PD 2 (init PD) opsD = [(61, [7])] := by decide
+
+-- non-vacuity: the run satisfies `SelContig` and the other hypotheses
+set_option maxRecDepth 1000000 in
+example : readsOn PD 1 (init PD) opsD <+: writesOn PD 1 (init PD) opsD :=
+  C01_netsys_prefix PD opsD 1 rfl (by decide) (by decide) (by decide) (by decide)
+
+-- test: the interleaving selection of `opsI` is NOT message-contiguous
+set_option maxRecDepth 1000000 in
+example : SelContig PD opsI = false := by decide
 
 end C01
